@@ -406,3 +406,6 @@ def run(rep, program: Program, tier: str) -> None:
     from . import c09
 
     rep.isolate(c09.rule_r6, rep, program, prop=PROP, rule="R7")
+    # a state restored from a pickle / deep copy must keep invalidating its cached constraint values, or the
+    # projection solvers read a stale zero residual and return off the manifold (shared with C09-R5)
+    rep.isolate(c09.rule_r5, rep, program, prop=PROP, rule="R8")
